@@ -11,7 +11,7 @@ import (
 
 func init() {
 	register("C05", propMeta{
-		Explanation: "E-PROV + E-GUARD + E-OWN on the server's carrier path. O-1 one identity per carrier: in turbotunnelMode the address given to QueueIncoming, the argument of OutgoingQueue and the key of clientIDAddrMap.Set all load from one local ClientID whose only writer is io.ReadFull(conn, clientID[:]), and all are reachable only through that read's err == nil edge; the packets queued are the results of encapsulation.ReadData on this carrier and the packets written to it are the values received from that OutgoingQueue, through a writer created by this invocation around this carrier (no state shared between carriers). O-2 token gate: turbotunnelMode is reachable only through the true edge of bytes.Equal(token, turbotunnel.Token) with token filled by a successful io.ReadFull; QueueIncoming/OutgoingQueue/Set are called from turbotunnelMode only; the carrier is closed on every path (deferred Close). O-3 address-tag integrity in the queue connection: QueueIncoming enqueues its addr parameter with its packet, ReadFrom returns P and Addr of one received element, WriteTo and OutgoingQueue use SendQueue(addr) of their parameter, and enqueued packets are private copies (shared with C17 O-4). O-4 map/heap index consistency of the client map (Swap/Push/Pop/SendQueue keep byAddr[record.Addr] = position). O-5 typed addresses: every QueueIncoming/OutgoingQueue call passes a turbotunnel.ClientID and ClientID.String() encodes the whole identifier (KCP keys sessions by the address string). O-6 one accepted connection per stream: queueConn is called once per successful AcceptStream, from acceptStreams only, and is the only sender on the accept queue. Added after the second seeding round: O-6/C01 the protocol-constant obligations of C01 including the smux keep-alive timeout against the client-map retention; a ClientID cell that is not filled by io.ReadFull is a violation; helpers of turbotunnelMode with one call site count as part of it. Added after the third seeding round: the per-session goroutine of the accept loop captures per-iteration variables only; every carrier records its address (empty included) before it is served, so a later carrier's absence of an address cannot leave an earlier one in place. Added after the fourth seeding round: O-4 no byAge[i] is read after heap.Fix/Push/Pop moved the records, and Swap re-indexes the record that ends up in each slot; O-9/C17 the queue connection reports an error only after close (a full queue reported as an error makes KCP end the session at the first gap between carriers). Added after the fifth seeding round: O-1b the QueuePacketConn a listener's KCP engine reads from is created by that call of Listen; O-9/C17 the heap.Interface methods of the client map are called by container/heap only; turbotunnelMode is found by its simple name if it became a method, its parameters by type. Added after the sixth seeding round and the mutation audit: O-0b NewClientID returns only behind the err == nil edge of crypto/rand.Read; O-11/C20 the guarded-by rows of ClientMap/clientMapInner; O-12/C17 the never-block rule for sends under the map's mutex.",
+		Explanation: "E-PROV + E-GUARD + E-OWN on the server's carrier path. O-1 one identity per carrier: in turbotunnelMode the address given to QueueIncoming, the argument of OutgoingQueue and the key of clientIDAddrMap.Set all load from one local ClientID whose only writer is io.ReadFull(conn, clientID[:]), and all are reachable only through that read's err == nil edge; the packets queued are the results of encapsulation.ReadData on this carrier and the packets written to it are the values received from that OutgoingQueue, through a writer created by this invocation around this carrier (no state shared between carriers). O-2 token gate: turbotunnelMode is reachable only through the true edge of bytes.Equal(token, turbotunnel.Token) with token filled by a successful io.ReadFull; QueueIncoming/OutgoingQueue/Set are called from turbotunnelMode only; the carrier is closed on every path (deferred Close). O-3 address-tag integrity in the queue connection: QueueIncoming enqueues its addr parameter with its packet, ReadFrom returns P and Addr of one received element, WriteTo and OutgoingQueue use SendQueue(addr) of their parameter, and enqueued packets are private copies (shared with C17 O-4). O-4 map/heap index consistency of the client map (Swap/Push/Pop/SendQueue keep byAddr[record.Addr] = position). O-5 typed addresses: every QueueIncoming/OutgoingQueue call passes a turbotunnel.ClientID and ClientID.String() encodes the whole identifier (KCP keys sessions by the address string). O-6 one accepted connection per stream: queueConn is called once per successful AcceptStream, from acceptStreams only, and is the only sender on the accept queue. Added after the second seeding round: O-6/C01 the protocol-constant obligations of C01 including the smux keep-alive timeout against the client-map retention; a ClientID cell that is not filled by io.ReadFull is a violation; helpers of turbotunnelMode with one call site count as part of it. Added after the third seeding round: the per-session goroutine of the accept loop captures per-iteration variables only; every carrier records its address (empty included) before it is served, so a later carrier's absence of an address cannot leave an earlier one in place. Added after the fourth seeding round: O-4 no byAge[i] is read after heap.Fix/Push/Pop moved the records, and Swap re-indexes the record that ends up in each slot; O-9/C17 the queue connection reports an error only after close (a full queue reported as an error makes KCP end the session at the first gap between carriers). Added after the fifth seeding round: O-1b the QueuePacketConn a listener's KCP engine reads from is created by that call of Listen; O-9/C17 the heap.Interface methods of the client map are called by container/heap only; turbotunnelMode is found by its simple name if it became a method, its parameters by type. Added after the sixth seeding round and the mutation audit: O-0b NewClientID returns only behind the err == nil edge of crypto/rand.Read; O-11/C20 the guarded-by rows of ClientMap/clientMapInner; O-12/C17 the never-block rule for sends under the map's mutex. Swap exchanges the two records (slot i receives what slot j held and the reverse).",
 		NotDecided:  "continuity of the byte stream across carriers (KCP), the retention arithmetic (C17 O-7), packet interleaving of overlapping carriers, kcp-go's own session table.",
 		Assumptions: []string{"kcp-go keys its sessions by RemoteAddr().String()", "encapsulation.ReadData returns a fresh slice per packet"},
 	}, runC05)
